@@ -71,9 +71,40 @@ func vdSideTerm(st reflect.Type, e *yang.Entry) string {
 	return "(CSide " + coqList(items) + ")"
 }
 
-// vdCfgIndependent: the config property of a schema node read off the raw entries: the nearest
-// explicit `config` statement on the way up decides; none: true.
+// vdCfgIndependent: the config property of a schema node, computed top-down from the root of the
+// package's schema through the Dir maps (choice and case nodes included: RFC 7950 7.9.1 allows a
+// config statement on a choice): the nearest explicit `config` statement on the way down decides;
+// none: true.  The Parent pointers, which ygot itself follows (util.IsConfig), are not used, so a
+// schema whose Parent chain was rebuilt wrongly does not mislead the oracle.
+var vdCfgMemo = map[*yang.Entry]bool{}
+var vdCfgRoots = map[*yang.Entry]bool{}
+
+func vdCfgIndex(root *yang.Entry) {
+	if root == nil || vdCfgRoots[root] {
+		return
+	}
+	vdCfgRoots[root] = true
+	var walk func(e *yang.Entry, inherited bool)
+	walk = func(e *yang.Entry, inherited bool) {
+		cfg := inherited
+		switch e.Config {
+		case yang.TSTrue:
+			cfg = true
+		case yang.TSFalse:
+			cfg = false
+		}
+		vdCfgMemo[e] = cfg
+		for _, c := range e.Dir {
+			walk(c, cfg)
+		}
+	}
+	walk(root, true)
+}
+
 func vdCfgIndependent(e *yang.Entry) bool {
+	if c, ok := vdCfgMemo[e]; ok {
+		return c
+	}
 	for x := e; x != nil; x = x.Parent {
 		switch x.Config {
 		case yang.TSTrue:
@@ -247,6 +278,7 @@ func vdPruneStream(rng *rand.Rand, n int, tier string, out string) (*Summary, er
 		root0 := p.NewRoot()
 		rt := reflect.TypeOf(root0).Elem()
 		schema := p.SchemaTree[rt.Name()]
+		vdCfgIndex(schema)
 		vf := &vdFile{pkg: p, cf: &caseFile{typ: "pcase"}, fn: "pmismatches cs", req: "Tree.ConfigFalse Corr.ValidCorr", bare: true}
 		vf.defs = []string{"Definition cs : cside := " + vdSideTerm(rt, schema) + "."}
 		var jobs []vdPruneReplay
